@@ -967,6 +967,7 @@ def run(tier):
     from . import c10
     sub10 = Check('C10', 'other', tier, [], [])
     chk.guard(c10.rule_r5, sub10, prog)
+    Check.restrict(sub10, lambda wh, what: wh == 'cli.ddsmt_main')
     chk.adopt('C09.R9', 'every strategy call is dominated by the golden '
               'runs: check() compares with the golden record on every path, '
               'a missing record turns each comparison into an exception that '
